@@ -387,6 +387,36 @@ pub fn run(ctx: &Ctx) -> Report {
         all.merge(ID, a);
     }
     rep.set("S4", json!({"representatives": n, "sequences": nseq, "note": "decode sequences on a fresh thread each: a result must not depend on earlier calls"}));
+    // S5: digit slots filled with multi-byte UTF-8 characters (Unicode decimal digits and other non-ASCII characters):
+    // a digit class that is not restricted to ASCII lets them through to the hex conversion
+    let tokens: [&[u8]; 9] = [b"0", b"A", "\u{0660}".as_bytes(), "\u{06F1}".as_bytes(), "\u{FF11}".as_bytes(), "\u{1D7CE}".as_bytes(), "\u{00B2}".as_bytes(), "\u{00E9}".as_bytes(), "\u{0967}".as_bytes()];
+    let slots = 12usize; // ':' + 12 digit tokens = a frame with one data byte when all are ASCII
+    let mut s5: Vec<Vec<u8>> = vec![];
+    for a in 0..slots {
+        for ta in 2..tokens.len() {
+            for b in a..slots {
+                for tb in 1..tokens.len() {
+                    for nl in [false, true] {
+                        let mut st = vec![b':'];
+                        for k in 0..slots {
+                            st.extend_from_slice(if k == a { tokens[ta] } else if k == b { tokens[tb] } else { tokens[0] });
+                        }
+                        if nl {
+                            st.extend_from_slice(b"\r\n");
+                        }
+                        s5.push(st);
+                    }
+                }
+            }
+        }
+    }
+    let accs = par_range(s5.len() as u64, 64, Acc::default, |acc, i| {
+        eval(acc, &s5[i as usize], (4u64 << 50) + i, true, true);
+    });
+    for a in accs {
+        all.merge(ID, a);
+    }
+    rep.set("S5", json!({"strings": s5.len(), "note": "one or two digit slots of a frame-shaped string replaced by multi-byte UTF-8 characters (Arabic-Indic, Extended Arabic-Indic, full-width, mathematical and Devanagari digits, superscript two, e-acute)"}));
     all.samples.push(json!({"string": ":01000302ff FB -> shown", "example_valid": show_bytes(&bs[13].1), "reference": format!("{:?}", ref_parse(&bs[13].1))}));
     all.samples.push(json!({"string": show_bytes(b":02000302FFFA"), "reference": format!("{:?}", ref_parse(b":02000302FFFA")), "implementation": format!("{:?}", Frame::from_bytes(b":02000302FFFA").map_err(|e| e.to_string()))}));
     all.samples.push(json!({"string": show_bytes(b":0\r\n:g"), "reference": format!("{:?}", ref_parse(b":0\r\n:g"))}));
